@@ -236,6 +236,11 @@ impl Fiber {
     self.state == FiberState::Pending
   }
 
+  /// Is this fiber waiting to be resumed
+  pub fn is_parked(&self) -> bool {
+    matches!(self.state, FiberState::Pending | FiberState::Blocked)
+  }
+
   /// Activate this fiber
   pub fn activate(&mut self) {
     assert!(matches!(
@@ -276,12 +281,15 @@ impl Fiber {
     self.state = FiberState::Complete;
     self.waiter.set_runnable(false);
 
-    // load from waiting fiber biases toward the parent fiber
-    let waiter = self
-      .parent
-      .filter(|parent| parent.is_pending())
-      .map(|parent| parent.waiter)
-      .or_else(|| self.get_runnable());
+    // a fiber parked on one of the channels this fiber used may be able to proceed now,
+    // for instance a receiver of a channel this fiber closed. Only the parent of an
+    // import is actually waiting for this fiber so it comes second
+    let waiter = self.get_runnable().or_else(|| {
+      self
+        .parent
+        .filter(|parent| parent.is_pending())
+        .map(|parent| parent.waiter)
+    });
 
     self.channels.clear();
 
